@@ -184,9 +184,14 @@ class GlsaDirSet(GenericEquality):
         if glob:
             if op != "eq":
                 raise ValueError(f"glob cannot be used with {op} ops")
-            return packages.PackageRestriction(
-                "fullver", values.StrGlobMatch(base.fullver)
-            )
+            restrictions = [
+                packages.PackageRestriction(
+                    "fullver", values.StrGlobMatch(base.fullver)
+                )
+            ]
+            if slot:
+                restrictions.append(atom_restricts.SlotDep(slot))
+            return packages.AndRestriction(*restrictions, negate=negate)
         restrictions = []
         if op.startswith("r"):
             if not base.revision:
